@@ -362,7 +362,22 @@ class SymExec:
     def ev(self, p: Path, expr: ast.AST, lineno: int, log: bool = True) -> list[tuple[Path, ast.AST]]:
         """Substitute locals, fork on ternaries; returns (path, value expression) pairs."""
         sub = _Subst(p.env).visit(copy.deepcopy(expr))
+        sub = self._walrus(p, sub)
         return self._resolve(p, sub, expr, lineno, log)
+
+    @staticmethod
+    def _walrus(p: Path, e: ast.AST) -> ast.AST:
+        """`(name := value)` binds `name` on the path and stands for `value` (innermost first).  Only
+        for walruses that are evaluated whenever the expression is (callers pass atoms / whole values)."""
+        while True:
+            hits = [n for n in ast.walk(e) if isinstance(n, ast.NamedExpr)
+                    and not any(isinstance(m, ast.NamedExpr) for m in ast.walk(n.value))]
+            if not hits:
+                return e
+            n = hits[0]
+            if isinstance(n.target, ast.Name):
+                p.env[n.target.id] = n.value
+            e = _copy_replacing(e, n, n.value) if e is not n else copy.deepcopy(n.value)
 
     def _resolve(self, p: Path, sub: ast.AST, orig: ast.AST, lineno: int, log: bool) -> list[tuple[Path, ast.AST]]:
         out: list[tuple[Path, ast.AST]] = []
@@ -420,6 +435,8 @@ class SymExec:
                 out.extend(self._test(q, t.body if o else t.orelse, lineno, orig))
             return out
         # an atom (may still contain ternaries or helper calls in operands: resolve them first)
+        if any(isinstance(n, ast.NamedExpr) for n in ast.walk(t)):
+            t = self._walrus(p, t)
         out = []
         needs = _first_ifexp(t) is not None or (
             (self.follow is not None or self.nested) and self._first_followable(t) is not None)
